@@ -89,10 +89,8 @@ func nodeLoopSelect(c *Ctx) (*ssa.Function, *ssa.Select) {
 	if run == nil {
 		return nil, nil
 	}
-	for _, in := range allInstrs(run) {
-		if s, ok := in.(*ssa.Select); ok && s.Blocking && inLoop(s.Block()) {
-			return run, s
-		}
+	if s := widestLoopSelect(run); s != nil {
+		return run, s
 	}
 	c.R.Fail("anchor", "Node.run loop select", c.Pos(run.Pos()), "no blocking select inside the node loop")
 	return run, nil
@@ -138,12 +136,7 @@ func runC13(c *Ctx) {
 	rw := c.Fn("root", "Channel.runWriter")
 	rd := c.Fn("root", "Channel.runReader")
 	if chRun != nil && rw != nil && rd != nil {
-		var chSel *ssa.Select
-		for _, in := range allInstrs(chRun) {
-			if s, ok := in.(*ssa.Select); ok && s.Blocking {
-				chSel = s
-			}
-		}
+		chSel := awaitSelect(chRun)
 		workerChan := func(name string) *ssa.Alloc {
 			for _, g := range goStmts(chRun) {
 				tf, _ := goTarget(g)
@@ -1004,12 +997,7 @@ func exOrNil(v ssa.Value) string {
 
 func checkCloseEvent(c *Ctx, chRun *ssa.Function) {
 	r := c.R
-	var sel *ssa.Select
-	for _, in := range allInstrs(chRun) {
-		if s, ok := in.(*ssa.Select); ok && s.Blocking {
-			sel = s
-		}
-	}
+	sel := awaitSelect(chRun)
 	if sel == nil {
 		r.Fail("R10.3", "Channel.run close event", c.Pos(chRun.Pos()), "no blocking select in Channel.run")
 		return
@@ -1091,6 +1079,13 @@ func checkCloseEvent(c *Ctx, chRun *ssa.Function) {
 					}
 				case "(gomavlib.Node).closeChannel":
 					unreg++
+				}
+			case *ssa.Select:
+				// closeChannel in line: the hand-over of this channel to the node loop
+				for _, st := range x.States {
+					if st.Dir == types.SendOnly && strings.HasSuffix(ex(st.Chan), ".chCloseChannel") && ex(st.Send) == "recv" {
+						unreg++
+					}
 				}
 			}
 		}
